@@ -129,3 +129,30 @@ Theorem C12_lookup : forall q s sd b, wf s = true -> valid s sd = true -> ids_ok
   Some (DS (match node_at (nodes s [] sd) (i_addr i) with Some n => LfDna n | None => LfNone end)).
 Proof. exact lookup_by_id. Qed.
 Print Assumptions C12_lookup.
+
+(* dictionary round trip, key_type = 'id', multi_choice_key = 'subchoice' or 'both', every value type except 'dna',
+   with or without include_inactive_decisions (ids_ok: ids pairwise different, none equal to a multi-choice parent's id) *)
+Theorem C12_dict_roundtrip_id : forall q s sd vt m b, wf s = true -> valid s sd = true -> vt <> VT_dna -> m <> MC_parent ->
+  ids_ok s -> (vt = VT_literal -> Forall lits_distinct (all_lits s)) ->
+  bind q s (normalize sd) = Some b ->
+  from_dict (ial_of vt) q s (to_dict (decision_points s) KT_id vt m false b) = Some b.
+Proof. exact dict_roundtrip_id_both. Qed.
+Print Assumptions C12_dict_roundtrip_id.
+
+Theorem C12_dict_roundtrip_id_inactive : forall q s sd vt m b, wf s = true -> valid s sd = true -> vt <> VT_dna -> m <> MC_parent ->
+  ids_ok s -> (vt = VT_literal -> Forall lits_distinct (all_lits s)) ->
+  bind q s (normalize sd) = Some b ->
+  from_dict (ial_of vt) q s (to_dict (decision_points s) KT_id vt m true b) = Some b.
+Proof. exact dict_roundtrip_id_inactive. Qed.
+Print Assumptions C12_dict_roundtrip_id_inactive.
+
+(* key_type = 'dna_spec' (the decision point objects as keys; no hypothesis on ids), multi_choice_key = 'subchoice'.
+   STILL MISSING for the full C12_dict_roundtrip: multi_choice_key = 'parent' (decisions only under the parent's key),
+   'dna_spec' with 'both', key_type = 'name_or_id' (a list under a name is consumed item by item), value_type = 'dna':
+   decided by the correspondence (45 combinations, shared-point family) and the oracle only. *)
+Theorem C12_dict_roundtrip_dna_spec : forall q s sd vt b, wf s = true -> valid s sd = true -> vt <> VT_dna ->
+  (vt = VT_literal -> Forall lits_distinct (all_lits s)) ->
+  bind q s (normalize sd) = Some b ->
+  from_dict (ial_of vt) q s (to_dict (decision_points s) KT_dna_spec vt MC_subchoice false b) = Some b.
+Proof. exact dict_roundtrip_spec. Qed.
+Print Assumptions C12_dict_roundtrip_dna_spec.
